@@ -525,6 +525,10 @@ func (c *fileCtx) renderFunc(it *Item) {
 	case it.Err:
 		res = "(" + res + ", error)"
 	}
+	if it.Stub {
+		c.pf("func %s(%s) %s {\n\tpanic(\"stub\")\n}\n\n", it.Name, strings.Join(ps, ", "), res)
+		return
+	}
 	tr := c.tr()
 	c.pf("func %s(%s) %s {\n", it.Name, strings.Join(ps, ", "), res)
 	args := ""
